@@ -22,6 +22,8 @@ PROP = "C01"
 QUICK_SHAPES = [(1, 2), (2, 2), (3, 2), (2, 3)]
 THOROUGH_SHAPES = QUICK_SHAPES + [(3, 3), (4, 2), (2, 4), (1, 3)]
 TOL = 1e-7
+LONG_N_QUICK = [67, 300]          # lengths of the replicated-row inputs (just above 64 and 256: typical block sizes)
+LONG_N_THOROUGH = [67, 131, 300, 1031]
 
 
 def labels(tier):
@@ -29,8 +31,27 @@ def labels(tier):
     return ls
 
 
-def job(label, n, Kc, via="evaluate", timeout_q=20.0, max_paths=4000):
+def long_pattern(N, m):
+    """which of the m distinct symbolic rows sits at each of the N positions (first and last positions hold different rows,
+    every row occurs several times, no periodicity that a block size could align with)"""
+    pat = [(i * 7 + i // 5 + (i * i) // 11) % m for i in range(N)]
+    pat[0], pat[-1] = 0, m - 1
+    return pat
+
+
+def _expand(P, A, pattern):
+    if pattern is None:
+        return P, A
+    idx = np.asarray(pattern)
+    return P[idx], (None if A is None else A[np.ix_(idx, idx)])
+
+
+def job(label, n, Kc, via="evaluate", timeout_q=20.0, max_paths=4000, long_n=None):
+    """long_n: the predictions have long_n rows drawn (by a fixed pattern) from n distinct symbolic rows, the affinity is the
+    corresponding replicated block matrix: code whose behaviour depends on the LENGTH of the input (blocking, chunking)
+    is executed with its real constants, at the price of only n distinct rows."""
     loader.install()
+    pattern = long_pattern(long_n, n) if long_n else None
     res = {"paths": 0, "queries": 0, "obligations": [], "violations": [], "validated": 0, "witnesses": 0, "samples": []}
     state = {}
 
@@ -41,7 +62,7 @@ def job(label, n, Kc, via="evaluate", timeout_q=20.0, max_paths=4000):
         core.CTX.merge_sign = (kind == "tv")   # np.sign/np.abs as sgn atoms: one path, the solver splits the cases
         P, base, A = cg.sym_inputs(kind, n, Kc, eps=gem.epsilon)
         state.update(stub=stub, gem=gem, kind=kind, ovo=ovo)
-        return P, A
+        return _expand(P, A, pattern)
 
     def body(arg):
         P, A = arg
@@ -58,7 +79,7 @@ def job(label, n, Kc, via="evaluate", timeout_q=20.0, max_paths=4000):
     for out, pc, trace in ex.run(body, setup):
         res["paths"] += 1
         kind, ovo = state["kind"], state["ovo"]
-        tag = f"{label}/{via}/n{n}K{Kc}/path{res['paths']}"
+        tag = f"{label}/{via}/n{n}K{Kc}{'/N%d' % long_n if long_n else ''}/path{res['paths']}"
         if isinstance(out, PathError):
             # the engine could not execute this path: fall back to a concrete comparison at a witness of the path
             v, wmodel = harness.reachable(pc, timeout_s=10.0)
@@ -66,7 +87,7 @@ def job(label, n, Kc, via="evaluate", timeout_q=20.0, max_paths=4000):
             if v == "unsat":
                 continue
             if v == "sat":
-                rep = {"label": label, "via": via, "n": n, "K": Kc, "model": {k: str(x) for k, x in wmodel.items() if k[0] in "pam"}}
+                rep = {"label": label, "via": via, "n": n, "K": Kc, "pattern": pattern, "model": {k: str(x) for k, x in wmodel.items() if k[0] in "pam"}}
                 try:
                     bad = replay(rep)
                 except Exception as e:   # the real code raises on a valid input: that is a finding too
@@ -100,14 +121,14 @@ def job(label, n, Kc, via="evaluate", timeout_q=20.0, max_paths=4000):
                                    "pc_size": len(pc), "verdict": o["verdict"], "how": o.get("how")})
         # engine validation at the witness point: symbolic term vs the real implementation
         if wmodel is not None:
-            ok = _validate(label, via, n, Kc, kind, ovo, impl, wmodel, orc)
+            ok = _validate(label, via, n, Kc, kind, ovo, impl, wmodel, orc, pattern)
             if ok is not None:
                 res["validated"] += 1
                 if not ok:
                     res["obligations"].append({"name": tag + "/engine-validation", "verdict": "inconclusive", "how": "symbolic term and real run disagree"})
         for cand in (o, dres):
             if cand["verdict"] == "sat" and cand.get("model"):
-                rep = {"label": label, "via": via, "n": n, "K": Kc, "model": {k: str(v) for k, v in cand["model"].items() if k[0] in "pam"}}
+                rep = {"label": label, "via": via, "n": n, "K": Kc, "pattern": pattern, "model": {k: str(v) for k, v in cand["model"].items() if k[0] in "pam"}}
                 if replay(rep):
                     res["violations"].append({"signature": f"{PROP}:{label.replace('reg:', '')}:{'score' if cand is o else 'undefined'}",
                                               "what": f"{label} via {via}: score differs from the documented definition at n={n},K={Kc}",
@@ -123,12 +144,12 @@ def _strip(o):
     return {k: v for k, v in o.items() if k != "model"}
 
 
-def _validate(label, via, n, Kc, kind, ovo, impl, model, orc=None):
+def _validate(label, via, n, Kc, kind, ovo, impl, model, orc=None, pattern=None):
     """run the REAL gemclus at the witness point and compare with the symbolic term evaluated there."""
     if kind == "w":
         return None  # the symbolic term contains the transport stub: not evaluable; wiring is checked by the query
     try:
-        P, A = cg.concrete_inputs(model, n, Kc, kind)
+        P, A = _expand(*cg.concrete_inputs(model, n, Kc, kind), pattern)
         gem, _, _ = cg.build(label, symbolic=False)
         real = gem(P, A) if via == "call" else gem.evaluate(P, A)
         env = harness.model_env(model)
@@ -151,11 +172,12 @@ def replay(rep, verbose=False):
     if P.min() <= cg.EPS or P.max() >= 1 - cg.EPS:
         return False
     for Ac in cg.affinity_candidates(kind, n, A):
-        real = float(gem(P, Ac) if rep.get("via") == "call" else gem.evaluate(P, Ac))
-        ref = cg.float_oracle(kind, ovo, P, Ac)
+        Pl, Ac = _expand(P, Ac, rep.get("pattern"))
+        real = float(gem(Pl, Ac) if rep.get("via") == "call" else gem.evaluate(Pl, Ac))
+        ref = cg.float_oracle(kind, ovo, Pl, Ac)
         bad = not (abs(real - ref) <= TOL * max(1.0, abs(ref)))
         if verbose:
-            print(f"P={P.tolist()} A={None if Ac is None else Ac.tolist()} library={real!r} definition={ref!r} {'MISMATCH' if bad else 'ok'}")
+            print(f"P={Pl.tolist() if len(Pl) <= 8 else 'rows ' + str(P.tolist()) + ' in pattern ' + str(rep.get('pattern'))} A={None if Ac is None else Ac.tolist()} library={real!r} definition={ref!r} {'MISMATCH' if bad else 'ok'}")
         if bad:
             return True
     return False
@@ -175,6 +197,16 @@ def jobs(tier):
         if not lab.startswith("reg:"):
             out.append({"name": f"{lab}/call/n2K2", "target": "checks.c01:job",
                         "kwargs": dict(label=lab, n=2, Kc=2, via="call", timeout_q=20.0), "timeout": 150})
+    for lab in cg.CLASSES:
+        kind = cg.CLASSES[lab][2:][0]
+        if kind == "w":
+            continue   # the transport stub enumerates orderings: n <= 4 only
+        for N in (LONG_N_QUICK if tier == "quick" else LONG_N_THOROUGH):
+            if kind == "mmd" and N > 150:
+                continue   # N^2 kernel entries
+            for (m, Kc) in ([(3, 2)] if tier == "quick" else [(3, 2), (2, 3)]):
+                out.append({"name": f"long/{lab}/N{N}/rows{m}K{Kc}", "target": "checks.c01:job",
+                            "kwargs": dict(label=lab, n=m, Kc=Kc, via="evaluate", timeout_q=30.0, long_n=N), "timeout": 300 if tier == "quick" else 1500})
     out.append({"name": "engine-selftest", "target": "symx.selftest:job", "kwargs": dict(n_cases=300 if tier == "quick" else 1500, seed=0), "timeout": 600})
     return out
 
